@@ -244,7 +244,7 @@ func exhMain(out, prop string, maxLen, xLen, coqBudget int, seed uint64) {
 	sum := hutil.NewSummary(prop, seed,
 		fmt.Sprintf("EXHAUSTIVE: every history up to a length bound over %s; in each, a login / LOGIN record occurs at most once (LOGIN2 in one of its two variants: old-ses unset, or naming session 1); "+
 			"cleanup cut-offs = the instant of the call (\"/prev\": one operation earlier); "+
-			"the records' serials rotate with the history's number (all zero, down from 2^32-1, up through 2^32, down from 9, all equal); "+
+			"the records' serials rotate with the history's number (all zero, down from 2^32-1, up through 2^32, down from 9, all equal), and so does whose identity the logins carry (each its own; all the same account, credential and address; a pool of two); "+
 			"each history runs on the real correlator, is judged by the %s oracle (scope onepid: the sessions' logins derived from the history alone; outcomes the property texts leave open are not judged), "+
 			"and (all of them, or an evenly spaced subset of at most %d) is replayed step by step against the Coq model; "+
 			"non-trivial = at least one event emitted; distinct by construction", exhNames(scopes, maxLen, xLen), prop, coqBudget))
@@ -272,6 +272,7 @@ func exhMain(out, prop string, maxLen, xLen, coqBudget int, seed uint64) {
 			h := exhHistory(sc, word)
 			h.Debug = n%3 == 2
 			exhSerials(&h, n)
+			h.IdentPool = []int{0, 1, 0, 2}[(n/5)%4] // every login its own identity / all logins one identity / a pool of two
 			rn := newRunner(h)
 			res := rn.run()
 			n++
